@@ -29,11 +29,15 @@ Fresh(G, s, f) == s.pv[f].kind = "fit" /\ \A c \in DepSet(G, f) : s.pv[f].conds[
 (*                       parameters of its conditioners ("fitted after all of those")            *)
 (*   Untouched           a function whose fit was never requested and that no fitted function    *)
 (*                       conditions keeps its start parameters                                   *)
+(*   FitCallSucceeds     no user fit call raises, in any order                                   *)
 EventClauses(G, s, e) ==
     <<
       <<"FittedAfterConditioners",
           (\A f \in FsOf(G) : s.xy[f] = e.d) => \A f \in FsOf(G) : e.pdev[f] <= PTol>>,
-      <<"Untouched", \A f \in FsOf(G) : s.xy[f] = 0 => e.atstart[f]>>
+      <<"Untouched", \A f \in FsOf(G) : s.xy[f] = 0 => e.atstart[f]>>,
+      \* a user fit call on a well-posed chain never fails, whatever the order ("strict" wirings are
+      \* not finite while a conditioner still has its start parameters: a premature fit raises)
+      <<"FitCallSucceeds", e.exc = "">>
     >>
 
 (* Conformance of the observed internals with the protocol model DepFitOps (internal _fit      *)
@@ -50,14 +54,14 @@ RECURSIVE Replay(_, _, _, _, _)
 Replay(G, dc, s, evs, i) ==
     IF i > Len(evs) THEN <<>>
     ELSE LET e == evs[i]
-             s2 == FitCall(G, dc, FALSE, [s EXCEPT !.log = <<>>], e.f, e.d)
+             s2 == FitCall(G, dc, "none", [s EXCEPT !.log = <<>>], e.f, e.d)
          IN Failing(EventClauses(G, s2, e)) \o Replay(G, dc, s2, evs, i + 1)
 
 RECURSIVE Conformant(_, _, _, _, _, _)
 Conformant(G, dc, s, evs, i, hasattrs) ==
     IF i > Len(evs) THEN TRUE
     ELSE LET e == evs[i]
-             s2 == FitCall(G, dc, FALSE, [s EXCEPT !.log = <<>>], e.f, e.d)
+             s2 == FitCall(G, dc, "none", [s EXCEPT !.log = <<>>], e.f, e.d)
          IN EventConformant(G, s2, e, hasattrs) /\ Conformant(G, dc, s2, evs, i + 1, hasattrs)
 
 ProtoVerdict(r) ==
@@ -74,14 +78,22 @@ ProtoConformant(r) ==
 (*   In flat valleys (3 points, 3 parameters) the optimisers stop within 0.1 % of the     *)
 (*   objective value itself, hence the additional relative term.                          *)
 ObjTol == 2000
+(* objectives are clamped at 2 x the zero-function objective; a fit that ends beyond that (e.g.  *)
+(* still at start parameters with a residual of 1e5) is judged on the ratios rpert = objpert /    *)
+(* objfit and rstart = objstart / objfit (units of 1e-9) instead                                  *)
+ObjClamp == 2000000000
 FitClauses(r) ==
     IF r.outcome \notin Range(r.expected) THEN << <<"Outcome", FALSE>> >>
     ELSE IF r.outcome # "ok" THEN <<>>
     ELSE <<
       <<"WithinBounds", r.inbounds>>,
       <<"ConstraintsHold", r.consmin >= -10>>,               \* >= -1e-8
-      <<"NoWorseThanStart", r.startadm => r.objfit <= r.objstart + ObjTol + (r.objstart \div 1000)>>,
-      <<"LocallyOptimal", r.objfit <= r.objpert + ObjTol + (r.objpert \div 1000)>>,
+      <<"NoWorseThanStart", r.startadm => IF r.objfit < ObjClamp
+                                            THEN r.objfit <= r.objstart + ObjTol + (r.objstart \div 1000)
+                                            ELSE r.rstart >= 999000000>>,
+      <<"LocallyOptimal", IF r.objfit < ObjClamp
+                          THEN r.objfit <= r.objpert + ObjTol + (r.objpert \div 1000)
+                          ELSE r.rpert >= 999000000>>,
       <<"LinearIsLstsq", r.linear => r.lindev <= 200000>>,   \* 2e-4 relative: curve_fit (xtol 1e-8 on a
                                                              \* finite-difference Jacobian) reproduces lstsq to <= 6e-5
       <<"ParametersFinite", r.finite>>
